@@ -75,7 +75,7 @@ func init() {
 }
 
 // fmt.Sprintf: concrete when the format is a literal with only %d verbs and all arguments are constants.
-func sprintfModel(ex *Exec, st *State, fr *Frame, c ssa.Instruction, fn *ssa.Function, args []Value) []Outcome {
+func sprintfModel(ex *Exec, st *State, fr *Frame, c0 ssa.Instruction, fn *ssa.Function, args []Value) []Outcome {
 	sym := []Outcome{{st, []Value{VStr{ID: Fresh("sprintf", BV(64))}}}}
 	f, ok := args[0].(VStr)
 	if !ok || f.Lit == nil {
@@ -111,8 +111,30 @@ func sprintfModel(ex *Exec, st *State, fr *Frame, c ssa.Instruction, fn *ssa.Fun
 			return sym
 		}
 		n, ok := iv.Val.(VInt)
-		if !ok || !n.T.IsConst() {
+		if !ok {
 			return sym
+		}
+		if !n.T.IsConst() {
+			// small-range case split: a symbolic integer that the path condition confines to 0..31 is enumerated
+			w := n.T.S.W
+			out := append(st.pc.list(), Not(ULt(n.T, Const(w, 32))))
+			if r := Solve(Script(out, nil, nil), 3, 0, "first"); r.Status != "unsat" {
+				return sym
+			}
+			var outs []Outcome
+			for v := uint64(0); v < 32; v++ {
+				c := Eq(n.T, Const(w, v))
+				if !ex.feasible(st, c) {
+					continue
+				}
+				s2 := st.clone()
+				s2.assume(c)
+				// re-run the model with the argument fixed
+				cell := VPtr{Obj: va.Obj, Path: []PathEl{{Index: Add(va.Off, Const(64, ai)), Field: -1}}}
+				s2.storePtr(cell, VIface{Dyn: iv.Dyn, Val: VInt{Const(w, v)}})
+				outs = append(outs, sprintfModel(ex, s2, fr, c0, fn, args)...)
+			}
+			return outs
 		}
 		_, signed, _ := intInfo(iv.Dyn)
 		if signed {
@@ -249,7 +271,10 @@ func atomicLoad32(ex *Exec, st *State, fr *Frame, c ssa.Instruction, fn *ssa.Fun
 	if st.dead {
 		return nil
 	}
-	return []Outcome{{st, []Value{st.loadPtr(p)}}}
+	// interference: between two atomic operations of this goroutine any other goroutine may have changed the
+	// shared word, so a load observes an arbitrary value (only the value RETURNED by an atomic add is linked to it)
+	_ = st.loadPtr(p)
+	return []Outcome{{st, []Value{VInt{Fresh("atomic.load", BV(32))}}}}
 }
 
 func atomicStore32(ex *Exec, st *State, fr *Frame, c ssa.Instruction, fn *ssa.Function, args []Value) []Outcome {
